@@ -149,6 +149,18 @@ func scenarios(th bool) []scenario {
 			out = append(out, scenario{Class: "flip", Clients: [][]op{h}, Cache: c, Faults: "flip", MaxFaults: 1, Bound: 1})
 		}
 	}
+	// the log's storage mode was switched back and forth: entries stored via external storage (hash form) sit BELOW entries
+	// stored with their full chain, and further hash-form entries follow; every range read crosses the seams
+	for _, m := range []struct{ hash, direct []string }{
+		{[]string{"L1"}, []string{"L4"}}, {[]string{"L1", "P1"}, []string{"L2"}}, {[]string{"P1"}, []string{"L1b", "L3"}}, {[]string{"L0", "RS"}, []string{"P0"}}, {[]string{"PP"}, []string{"L1"}},
+	} {
+		for _, h := range [][]op{{read}, {rd}, {sub("L1r"), seq, read}, {sub("P4"), sub("L3"), seq, rd, read}} {
+			for _, c := range []string{"noop", "lruN", "advM"} {
+				out = append(out, scenario{Class: "mixed", PreHash: idx(m.hash), PreDirect: idx(m.direct), HashFirst: true, Clients: [][]op{h}, Cache: c, Bound: 0})
+			}
+			out = append(out, scenario{Class: "mixed-fault", PreHash: idx(m.hash), PreDirect: idx(m.direct), HashFirst: true, Clients: [][]op{h}, Cache: "advH", Faults: "basic", MaxFaults: 1, Bound: 1})
+		}
+	}
 	// boundary reads
 	for _, h := range [][]op{
 		{{K: "gep", A: 0, B: 1}}, {{K: "ge", A: 0, B: 0}},
